@@ -1,7 +1,105 @@
 import Driver.Common
+import Log4rsModel.Routing.Spec
+/-
+C01 case:   appenders(,)  rootLevel  rootRefs(,)  loggers(, of name;level;additive;refs(|))  probes(, of target;level)
+observation: per probe (,) the sequence (;) of appender names called, `~` for none; `PANIC` if `Logger::new` panicked
+-/
 namespace Driver.C01
-open Driver
+open Log4rs.Proto Log4rs.Routing Log4rs.Routing.Tree Driver
 
-def handle : Handler := fun _ _ => badCase "unimplemented"
+def decNames (sep : Char) (s : String) : Option (List Name) := mapM? decStr (decList sep s)
+
+def decLogger (s : String) : Option LoggerCfg :=
+  match splitOnChar ';' s with
+  | [n, l, a, r] =>
+    match decStr n, decNat l, decBool a, decNames '|' r with
+    | some name, some level, some additive, some appenders => some { name, level, additive, appenders }
+    | _, _, _, _ => none
+  | _ => none
+
+def decConfig (apps rootLevel rootRefs loggers : String) : Option Config :=
+  match decNames ',' apps, decNat rootLevel, decNames ',' rootRefs, mapM? decLogger (decList ',' loggers) with
+  | some appenders, some rootLevel, some rootAppenders, some loggers =>
+    some { appenders, rootLevel, rootAppenders, loggers }
+  | _, _, _, _ => none
+
+def decProbe (s : String) : Option (Name × Nat) :=
+  match splitOnChar ';' s with
+  | [t, l] => match decStr t, decNat l with
+    | some t, some l => some (t, l)
+    | _, _ => none
+  | _ => none
+
+def renderNames (ns : List Name) : String := encList ";" (ns.map encStr)
+
+def renderDeliveries (ds : List (List Name)) : String := encList "," (ds.map renderNames)
+
+/-- is some proper non-empty component prefix of a logger name not configured (an implied node)? -/
+def hasImplied (cfg : Config) : Bool :=
+  cfg.loggers.any fun l =>
+    let p := comps l.name
+    (List.range p.length).any fun i =>
+      0 < i && (lookupLogger cfg.loggers (p.take i)).isNone
+
+def hasNested (cfg : Config) : Bool :=
+  cfg.loggers.any fun l => (parent cfg l).isSome
+
+def hasTextualSibling (cfg : Config) : Bool :=
+  cfg.loggers.any fun a => cfg.loggers.any fun b =>
+    a.name ≠ b.name && Log4rs.Str.isPrefix a.name b.name && !(comps a.name).isPrefixOf (comps b.name)
+
+def sortMatters (cfg : Config) : Bool :=
+  let ks := cfg.loggers.map (fun l => byteLen l.name)
+  (ks.zip (ks.drop 1)).any fun (a, b) => b < a
+
+def nonAscii (cfg : Config) : Bool :=
+  cfg.loggers.any fun l => byteLen l.name ≠ l.name.length
+
+def configTags (cfg : Config) : List String :=
+  (if cfg.loggers.isEmpty then ["trivial"] else []) ++
+  (if hasImplied cfg then ["implied-intermediate"] else []) ++
+  (if hasNested cfg then ["nested"] else []) ++
+  (if cfg.loggers.any (fun l => !l.additive && (parent cfg l).isSome) then ["non-additive-cut"] else []) ++
+  (if cfg.loggers.any (fun l => !l.additive) then ["non-additive"] else []) ++
+  (if hasTextualSibling cfg then ["textual-sibling"] else []) ++
+  (if sortMatters cfg then ["declared-unsorted"] else []) ++
+  (if nonAscii cfg then ["non-ascii"] else []) ++
+  (if cfg.loggers.any (fun l => (comps l.name).head? = some []) then ["leading-colons"] else []) ++
+  (if cfg.loggers.length ≥ 4 then ["many-loggers"] else [])
+
+def probeTags (cfg : Config) (probes : List (Name × Nat)) : List String :=
+  (if probes.any (fun p => (effective cfg p.1).isNone) then ["to-root"] else []) ++
+  (if probes.any (fun p => match effective cfg p.1 with
+      | some l => comps l.name ≠ comps p.1 | none => false) then ["partial-match"] else []) ++
+  (if probes.any (fun p => !specEnabled cfg p.1 p.2) then ["gated"] else []) ++
+  (if probes.any (fun p => (specDeliver cfg p.1 p.2).length ≥ 3) then ["long-chain"] else []) ++
+  (if probes.any (fun p => p.1.any (· = ':') && (comps p.1).any (fun c => c.any (· = ':') || c.isEmpty)) then ["stray-colons"] else [])
+
+def signature (cfg : Config) : String :=
+  "C01/" ++ (if hasImplied cfg then "implied" else if hasNested cfg then "nested" else "flat")
+
+def handle : Handler := fun cas obs =>
+  match cas, obs with
+  | [apps, rootLevel, rootRefs, loggers, probes], [implObs] =>
+    match decConfig apps rootLevel rootRefs loggers, mapM? decProbe (decList ',' probes) with
+    | some cfg, some probes =>
+      let model : String :=
+        -- `deliver cfg t lvl` for every probe, building the tree once
+        match build cfg with
+        | some tree => renderDeliveries (probes.map fun p => logNode cfg.appenders (find tree (comps p.1)) p.2)
+        | none => "PANIC"
+      let spec := renderDeliveries (probes.map fun p => specDeliver cfg p.1 p.2)
+      let verdict :=
+        if !validB cfg then "FAIL:generator produced an invalid configuration;sig=C01/invalid-config"
+        else if implObs = spec then "ok"
+        else
+          let implParts := decList ',' implObs
+          let specParts := decList ',' spec
+          let idx := ((implParts.zip specParts).takeWhile (fun (a, b) => a = b)).length
+          "FAIL:probe " ++ toString idx ++ " expected " ++ (specParts.getD idx "?") ++ " got " ++
+            (implParts.getD idx "?") ++ ";sig=" ++ signature cfg
+      { model, spec := verdict, tags := configTags cfg ++ probeTags cfg probes }
+    | _, _ => badCase "decode"
+  | _, _ => badCase "arity"
 
 end Driver.C01
